@@ -8,7 +8,7 @@ TRUSTED_BASE = [
     "Coq 8.16.1 kernel (coqc); no native_compute",
     "rectangle theorems (over Q): Closed under the global context; ellipsoid theorems (over R): sig_forall_dec, sig_not_dec, functional_extensionality_dep, classic from the Coq standard library",
     "translator: RectangularConfidenceRegion.is_dominated and hyperrectangle_get_vertices regenerated into coq/gen/Gen_region.v on every run",
-    "ellipsoids: hand-written decider Ellipsoid.ell_dom (support functions, exact sign analysis of sums of square roots); the cvxpy SOCP solve, scipy sqrtm and numpy inv in EllipsoidalConfidenceRegion.is_dominated are modelled, compared outside a relative 1e-5 band",
+    "ellipsoids: the SOCP posed by EllipsoidalConfidenceRegion.is_dominated is regenerated (translator/ellgen.py, Gen_ell.v) and proved (EllPosed.v, over R) to hold exactly when the closed form w.(c2-c1) - a1|M1^T w| - a2|M2^T w| >= -slack holds for every facet, which is what the decider Ellipsoid.ell_dom evaluates exactly over Q (sign analysis of sums of square roots); that cvxpy returns the optimum of the posed problem, scipy sqrtm (the symmetric square root) and numpy inv are modelled, and the implementation is compared with the decider outside a relative 1e-5 band",
     "extraction with ExtrOcamlBasic only + driver; OCaml 4.13.1",
 ]
 ASSUMPTIONS = ["rectangle inputs with integer cones are exactly representable: decisions must agree exactly, boundary included",
